@@ -301,3 +301,4 @@ def run(ctx):
     boundaries.check_calls(ctx, 'C15.RC', 'C15')
     from .. import errdisc
     errdisc.check(ctx, 'C15.RD', 'C15', 5)
+    boundaries.check_guards(ctx, 'C15.RG', 'C15')
